@@ -651,6 +651,8 @@ class Emitter:
         self.names, self.used_names, self.refvars = {}, {'this', 'self'}, set()
         self.loop_no = 0
         self.dtor_locals = []
+        self.scopes = [[]]      # per C++ block: locals with a modelled destructor, in declaration order
+        self.loop_scopes = []   # len(self.scopes) at the entry of each enclosing loop
         self.T.local_alias = self.aliases_for(f)
         self.func_stats[f.cname] = {'atomic': 0, 'loops': 0, 'returns': 0, 'calls': 0}
 
@@ -696,8 +698,12 @@ class Emitter:
             self.self_value = None
         else:
             self.self_value = None
+            self.dtor_early_return = False
             self.stmt_list(body[0], 1)
+            self.leave_scope(1)
             if f.kind == 'dtor':
+                if self.dtor_early_return:
+                    self.w('verif_member_destruction:;', 1)
                 self.emit_member_dtors(f, 1)
         self.w('}')
         self.w('')
@@ -847,11 +853,32 @@ class Emitter:
     def block(self, s, ind):
         """emit s as a braced block"""
         self.w('{', ind)
+        self.scopes.append([])
         if s.get('kind') == 'CompoundStmt':
             self.stmt_list(s, ind + 1)
         else:
             self.stmt(s, ind + 1)
+        self.leave_scope(ind + 1)
         self.w('}', ind)
+
+    def leave_scope(self, ind):
+        """locals of the innermost block are destroyed at its end (reverse order of declaration)"""
+        for nm, ct in reversed(self.scopes.pop()):
+            self.w('%s_dtor(&%s); /* implicit destruction of the local at scope exit */' % (ct, nm), ind)
+            self.dtor_locals.remove((nm, ct))
+
+    def destroy_live_locals(self, ind):
+        for nm, ct in reversed(self.dtor_locals):
+            self.w('%s_dtor(&%s); /* implicit destruction of the local at scope exit */' % (ct, nm), ind)
+
+    def loop_body(self, body, ind):
+        self.loop_scopes.append(len(self.scopes))
+        self.block(body, ind)
+        self.loop_scopes.pop()
+
+    def check_jump(self, s):
+        if self.loop_scopes and any(self.scopes[self.loop_scopes[-1]:]):
+            die('break/continue out of a block that holds a local with a destructor is not modelled', s)
 
     def stmt(self, s, ind):
         k = s.get('kind')
@@ -867,8 +894,7 @@ class Emitter:
             rt = self.func_sig(self.cur)[0]
             self.w('{', ind)
             self.w('%s verif_ret = %s;' % (rt, self.addr(s['inner'][0]) if self.ret_ref else self.expr(s['inner'][0])), ind + 1)
-            for nm, ct in reversed(self.dtor_locals):
-                self.w('%s_dtor(&%s); /* implicit destruction of the local at scope exit */' % (ct, nm), ind + 1)
+            self.destroy_live_locals(ind + 1)
             self.w('return verif_ret;', ind + 1)
             self.w('}', ind)
         elif k == 'ReturnStmt':
@@ -877,9 +903,13 @@ class Emitter:
             if self.cur.kind == 'ctor':
                 self.w('return self;', ind)
             elif not inner:
+                self.destroy_live_locals(ind)
                 if self.cur.kind == 'dtor':
-                    die('early return inside destructor not supported (member destruction order)', s)
-                self.w('return;', ind)
+                    # the members are destroyed after the body, also on an early return
+                    self.dtor_early_return = True
+                    self.w('goto verif_member_destruction;', ind)
+                else:
+                    self.w('return;', ind)
             else:
                 e = inner[0]
                 if self.ret_ref:
@@ -902,7 +932,7 @@ class Emitter:
             self.stat('loops')
             self.w('while (%s)' % self.cond(parts[0]), ind)
             self.w('/*@LOOP %s %d*/' % (self.cur.cname, no), ind)
-            self.block(parts[-1], ind)
+            self.loop_body(parts[-1], ind)
         elif k == 'DoStmt':
             parts = s['inner']
             no = self.loop_no
@@ -911,7 +941,7 @@ class Emitter:
             self.w('do', ind)
             # CBMC syntax: the loop contract of a do-while stands between `do` and the body
             self.w('/*@LOOP %s %d*/' % (self.cur.cname, no), ind)
-            self.block(parts[0], ind)
+            self.loop_body(parts[0], ind)
             c = self.cond(parts[1])
             self.w('while (%s);' % c, ind)
         elif k == 'ForStmt':
@@ -926,11 +956,13 @@ class Emitter:
             i = self.expr(inc) if inc and inc.get('kind') else ''
             self.w('for (; %s; %s)' % (c, i), ind + 1)
             self.w('/*@LOOP %s %d*/' % (self.cur.cname, no), ind + 1)
-            self.block(body, ind + 1)
+            self.loop_body(body, ind + 1)
             self.w('}', ind)
         elif k == 'BreakStmt':
+            self.check_jump(s)
             self.w('break;', ind)
         elif k == 'ContinueStmt':
+            self.check_jump(s)
             self.w('continue;', ind)
         elif k == 'NullStmt':
             self.w(';', ind)
@@ -1028,11 +1060,14 @@ class Emitter:
         self.w('%s %s = %s;' % (ct, name, self.expr(init)), ind)
         self.note_dtor_local(name, ct)
 
+    LIB_DTOR_LOCALS = ('shared_ptr_size',)
+
     def note_dtor_local(self, name, ct):
-        if ct in getattr(self, 'tu_fields', {}) and any(f.cname == ct + '_dtor' for f in self.tu.func_order):
-            if self.cur.kind in ('ctor', 'dtor'):
-                die('local of class type %s with a destructor inside a constructor/destructor is not modelled' % ct)
+        if (ct in getattr(self, 'tu_fields', {}) and any(f.cname == ct + '_dtor' for f in self.tu.func_order)) or ct in self.LIB_DTOR_LOCALS:
+            if self.cur.kind == 'ctor':
+                die('local of class type %s with a destructor inside a constructor is not modelled' % ct)
             self.dtor_locals.append((name, ct))
+            self.scopes[-1].append((name, ct))
 
     # ---- expressions ---------------------------------------------------------
     def unwrap(self, e, keep_materialize=False):
@@ -1325,7 +1360,19 @@ class Emitter:
                 # move/copy construction from a weak_ptr prvalue/xvalue: value semantics
                 return self.expr(a)
         if ct == 'shared_ptr_size' and len(args) == 1:
-            return self.expr(args[0])
+            ctype_str = e.get('ctorType', {}).get('qualType', '')
+            a = args[0]
+            if '&&' in ctype_str:
+                moved = self.strip_move(a)
+                if moved is not a:
+                    return 'shared_ptr_size_ctor_move(%s)' % self.addr(moved)
+                u = self.unwrap(a, keep_materialize=True)
+                if u.get('kind') == 'MaterializeTemporaryExpr' or u.get('valueCategory') == 'prvalue':
+                    return self.expr(a)   # the prvalue is moved into the new object and dies empty
+                die('shared_ptr move construction from %s not modelled' % u.get('kind'), e)
+            if 'const' in ctype_str and '&' in ctype_str:
+                return 'shared_ptr_size_copy(%s)' % self.addr(a)   # one more owner
+            die('shared_ptr construction %s not modelled' % ctype_str, e)
         if ct in ('std_greater_size', 'hash_thread_id') and not args:
             return '0'
         if ct == 'uniform_real_dist' and len(args) == 2:
